@@ -66,6 +66,13 @@ CHECKS = {
  'C17': dict(sec='2/C17', tech='exhaustive enumeration of digest size x mode x key length x message shape x bit length x round count alphabets (engine P) against an independent MD6 reference bound to the specification examples',
              text='Every d in 1..512 (quick every 5th) in tree and sequential mode; L in {0,1,2,3,64} x 5 key lengths x 27 message lengths covering 1 to 65 leaves and every 512/384 residue boundary; every L\' mod 8 at one-, two- and three-level sizes with longer containers; default and explicit round counts. Shapes run at 12 rounds, where every input word provably reaches the digest (self-tested on the reference).',
              note='Trusted: mc/refs/md6.py (3 spec examples + 3 published digests + sensitivity self-test per run).'),
+
+ 'C10': dict(sec='2/C10', tech='explicit-state BFS over call histories on real objects (engine H): per object kind a menu of one-shot and perturbation events, states deduplicated by the canonical form of object + sibling, history-independence oracle against a fresh equally configured object, library-globals invariant after every transition',
+             text='48 object kinds incl. the module-level singletons; every history of up to 3 (thorough 5) calls - valid one-shot calls, calls with per-call options, calls that raise, unfinished updates, duplex, suspended keystream generators, calls on a sibling instance with other constructor arguments, direct use of a shared inner hash - is executed on a live object; every judged call must return exactly what it returns on a fresh object; module/class-level state must equal its import-time snapshot. Failing histories are minimised and classified by (kind, judged event, culprit set).',
+             note='Trusted: nothing beyond the harness (purely differential). Perturbation events are not judged; HMAC.setkey and RC4 stream state are out of scope here (C13, C06).'),
+ 'C19': dict(sec='2/C19', tech='exhaustive enumeration of all 30 TLSH configurations x length x content x force alphabets, all digest pairs per configuration, all 256 Nilsimsa targets (engine P) against paper/reference models bound to the official vectors',
+             text='Every TLSH configuration on 12/16 lengths (around the window size, 50 and 256 byte gates and the length-bucket formula changes) x 7 contents x force: None or a digest of exactly the configured length equal to the model; from_hash on produced, zero, all-ones and single-bit digests; all ordered digest pairs in 6 call forms (bytes/object): non-negative, symmetric, form-independent, zero on identical, equal to the model score; Nilsimsa for every target and every length 0..39, distances = Hamming.',
+             note='Trusted: mc/refs/lsh.py (official TLSH and Nilsimsa vectors per run). The 48-bucket gate with 18..24 non-empty buckets is only judged for type.'),
 }
 
 PENDING = {}
